@@ -16,13 +16,14 @@ def build(asm, tier):
     asm.file('spec/poly_value.rs')
     asm.raw(al.leaf_spec_text(), 'generated remainder definitions')
     asm.file('spec/fn_algebra.rs')
+    asm.raw(al.CONV_SPEC, 'upcast / negation / difference predicates of the macro layer')
     asm.raw(al.LEMMAS, 'algebra lemmas')
     asm.raw('} // mod lib\npub mod units {\n' + common.UNITS_USES)
     stubs, names = al.leaf_stubs()
     asm.raw(stubs, 'assumed callee contracts (BTreeMap-merge leaves)')
     for n in names:
         asm.stubs.append(dict(unit=n, proved_in=''))
-    for u in al.zero_linear() + al.zero_quadratic_polynomial() + al.from_units() + [al.linear_add_f64(), al.linear_mul_f64(), al.quadratic_add_f64(), al.quadratic_mul_f64(), al.polynomial_mul_f64(), al.function_add(), al.function_mul()]:
+    for u in al.zero_linear() + al.zero_quadratic_polynomial() + al.from_units() + [al.linear_add_f64(), al.linear_mul_f64(), al.quadratic_add_f64(), al.quadratic_mul_f64(), al.polynomial_mul_f64(), al.function_add(), al.function_mul()] + al.macro_units():
         asm.unit(u)
     asm.raw('} // mod units\n')
     asm.guard(common.guard_fn('c02', '', uses='use super::lib::*;'), 'vacuity: prelude')
